@@ -27,7 +27,7 @@ ASSUMPTIONS = [
 ]
 
 P = PP = None
-NAMES = ['A', 'B', 'C', 'D', 'E', 'F', 'G', 'L', 'M']
+NAMES = ['A', 'B', 'C', 'D', 'E', 'F', 'G', 'L', 'M', 'N1', 'N2']
 SMALL = ['A', 'B', 'C']
 FLAGS = [(cs, cd, rd) for cs in (False, True) for (cd, rd) in ((True, True), (True, False), (False, False))]
 PENDING, UNKNOWN, PROMOTED = 0, 1, 2
@@ -39,7 +39,8 @@ ENUM_LEN = {'quick': 3, 'thorough': 4}
 RULE = ('run index < K enumerates ALL histories of length <= 3 (thorough: 4) over a reduced alphabet of %d '
         'operations on the chain A<-B<-C, each followed by a probing suffix (non-promoting is_registered '
         'queries and a print of every class); further indices are seeded random histories of length 3-30 '
-        'over the full lattice A; B(A); C(B); D(A); E(B,D); F; G(F); L(list); M(L) with a per-run '
+        'over the full lattice A; B(A); C(B); D(A); E(B,D); F; G(F); L(list); M(L); two nested classes '
+        'Outer1.N / Outer2.N sharing their __name__; with a per-run '
         'operation mix. distinct = distinct operation list; non-trivial = distinct AND at least one '
         'registration is followed by a print or query it can influence.' % len(ENUM_OPS))
 
@@ -57,10 +58,10 @@ def setup():
 def lattice():
     mod = 'verif_lattice'
 
-    def mk(name, *bases):
-        c = type(name, bases or (object,), {'__repr__': lambda s: 'REPR<%s>' % type(s).__name__})
+    def mk(name, *bases, qualname=None):
+        c = type(name, bases or (object,), {'__repr__': lambda s: 'REPR<%s>' % type(s).__qualname__})
         c.__module__ = mod
-        c.__qualname__ = name
+        c.__qualname__ = qualname or name
         return c
     A = mk('A')
     B = mk('B', A)
@@ -71,10 +72,21 @@ def lattice():
     G = mk('G', F)
     L = mk('L', list)
     M = mk('M', L)
-    return dict(A=A, B=B, C=C, D=D, E=E, F=F, G=G, L=L, M=M)
+    # two nested classes sharing their __name__ (qualified names differ)
+    N1 = mk('N', qualname='Outer1.N')
+    N2 = mk('N', qualname='Outer2.N')
+    return dict(A=A, B=B, C=C, D=D, E=E, F=F, G=G, L=L, M=M, N1=N1, N2=N2)
 
 
 BUNDLED = (list,)
+
+
+class _IsInstance:
+    def __init__(self, t):
+        self.t = t
+
+    def accept(self, v):
+        return isinstance(v, self.t)
 
 
 NO, MAYBE, YES = 0, 1, 2
@@ -191,7 +203,7 @@ def generate(rng, idx, tier):
         if k in ('rc', 'rn'):
             ops.append([k, c, tag])
         elif k == 'rp':
-            ops.append(['rp', c if rng.random() < 0.8 else None, tag])
+            ops.append(['rp', c if rng.random() < 0.8 else None, tag, 'fresh' if rng.random() < 0.4 else 'shared'])
         elif k == 'pr':
             ops.append(['pr', c, rng.random() < 0.3])
         elif k == 'ir':
@@ -218,6 +230,8 @@ def execute(spec):
                digest=core.digest_of(spec['ops']), **{'class': None})
     trace = []
     registered = False
+    shared_preds = {}
+    seen_pred_targets = set()
 
     def bump(k):
         counters[k] = counters.get(k, 0) + 1
@@ -251,12 +265,21 @@ def execute(spec):
             trace.append(op)
         elif k == 'rp':
             tag = op[2]
+            fresh = len(op) > 3 and op[3] == 'fresh'
             if op[1] is None:
                 register_pretty(predicate=lambda v: False)(lambda v, ctx, tag=tag: tag)
                 m.preds.append((lambda kls: False, tag))
             else:
                 t = cls[op[1]]
-                register_pretty(predicate=lambda v, t=t: isinstance(v, t))(lambda v, ctx, tag=tag: tag)
+                if fresh:
+                    pred = (lambda v, t=t: isinstance(v, t))
+                else:
+                    # the same predicate registered again: a new bound method object that
+                    # compares equal to (but is not) the one registered before
+                    pred = shared_preds.setdefault(t, _IsInstance(t)).accept
+                    bump('predicate_reregistered' if t in seen_pred_targets else 'predicate_first')
+                    seen_pred_targets.add(t)
+                register_pretty(predicate=pred)(lambda v, ctx, tag=tag: tag)
                 m.preds.append((lambda kls, t=t: issubclass(kls, t), tag))
             registered = True
             trace.append(op)
